@@ -3,9 +3,9 @@
 package contracts
 
 // C15 harness, in-package part: drives the real `locker` (and, through the exported helpers,
-// the real Manager.Lock / Unlock / LockV2Contract from the external test package) with
-// controllable actions, waits for quiescence, records what it sees for the Coq model
-// (coq/Lock/Model.v, trace inclusion) and evaluates the property's monitors.
+// the real Manager.Lock / Unlock / LockV2Contract / CheckIntegrity / V2CheckIntegrity from the
+// external test package) with controllable actions, waits for quiescence, records what it sees
+// for the Coq model (coq/Lock/Model.v, trace inclusion) and evaluates the property's monitors.
 
 import (
 	"context"
@@ -75,6 +75,12 @@ func (cm *Manager) VerifC15Snapshot(ids []types.FileContractID) map[int][2]int {
 // VerifC15Mu exposes the locker's mutex so the harness can steer the cancel/unlock race.
 func (cm *Manager) VerifC15Mu() *sync.Mutex { return &cm.locks.mu }
 
+// VerifC15SetRoots sets the cached sector roots of a contract without touching its revision, so
+// that the harness can have contracts whose roots do not hash to the revision's Merkle root.
+func (cm *Manager) VerifC15SetRoots(id types.FileContractID, roots []types.Hash256) {
+	cm.setSectorRoots(id, roots)
+}
+
 // VerifC15Reset installs a fresh lock table (only used to continue after a reported failure).
 func (cm *Manager) VerifC15Reset() { cm.locks = newLocker() }
 
@@ -94,8 +100,14 @@ type VerifC15Emitter interface {
 type VerifC15Backend struct {
 	Name        string
 	IDs         int // contract ids 0..IDs-1
-	APIs        int // 1: locker.Lock; 2: 0 = Manager.Lock, 1 = Manager.LockV2Contract
+	APIs        int // 1: locker.Lock; 4: 0 = Manager.Lock, 1 = Manager.LockV2Contract, 2 = Manager.CheckIntegrity, 3 = Manager.V2CheckIntegrity
+	// Lock performs the call.  For a locking API a nil error means the caller now holds the
+	// contract and unlock releases it.  For an integrity-check API (IsCheck) a nil error means the
+	// check returned normally — it holds nothing — and the returned func, if any, waits until the
+	// check's result channel has been drained.
 	Lock        func(ctx context.Context, api, id int) (unlock func(), err error)
+	IsCheck     func(api int) bool     // the API is an integrity check (nil: none is)
+	CheckOK     func(api, id int) bool // the root checks in the body of the integrity check pass
 	Snapshot    func() map[int][2]int
 	Mu          func() *sync.Mutex
 	Bad         func(api, id int) bool // the Manager-level contract check fails for (api, id)
@@ -110,6 +122,7 @@ const (
 	c15Holding
 	c15CtxErr
 	c15MgrErr
+	c15Panicked
 )
 
 type c15Thread struct {
@@ -119,6 +132,8 @@ type c15Thread struct {
 	cancelled bool
 	unlock    func()
 	everWait  bool
+	parked    atomic.Bool // the pending call was seen parked behind a holder at a quiescent point
+	panicMsg  atomic.Value
 	gate      *c15GateCtx
 }
 
@@ -147,10 +162,14 @@ type c15Run struct {
 	rng     *rand.Rand
 	ths     []*c15Thread
 	inCS    []atomic.Int32
-	twoHold atomic.Int32
+	twoHold atomic.Int32 // a caller came back from Lock with the contract while another one was inside
+	waitIn  atomic.Int32 // ... and that caller was a parked waiter (admitted without a release)
+	countMu sync.Mutex
+	counts  []string
 	timeout time.Duration
 	failed  bool
 	fatal   bool // the locker is wedged: no further case can run
+	paniced bool // a call of the code under test panicked: what it left behind (goroutines, thread group) is unknown
 	parked  int
 }
 
@@ -209,14 +228,32 @@ func (r *c15Run) startLockCtx(t, api, id int, predone, gated bool) string {
 	if predone {
 		cancel()
 	}
+	th.parked.Store(false)
 	th.status.Store(c15Calling)
 	bad := r.be.Bad(api, id)
+	isCheck := r.isCheck(api)
 	go func() {
+		defer func() {
+			if p := recover(); p != nil {
+				th.panicMsg.Store(fmt.Sprint(p))
+				th.status.Store(c15Panicked)
+			}
+		}()
 		unlock, err := r.be.Lock(ctx, api, id)
 		switch {
+		case err == nil && isCheck:
+			// the integrity check has returned: whatever it locked it must have released
+			if unlock != nil {
+				go func() { unlock(); cancel() }()
+			}
+			th.status.Store(c15Idle)
 		case err == nil:
 			if r.inCS[id].Add(1) != 1 {
-				r.twoHold.Add(1)
+				if th.parked.Load() {
+					r.waitIn.Add(1)
+				} else {
+					r.twoHold.Add(1)
+				}
 			}
 			th.unlock = unlock
 			th.status.Store(c15Holding)
@@ -228,8 +265,28 @@ func (r *c15Run) startLockCtx(t, api, id int, predone, gated bool) string {
 			th.status.Store(c15MgrErr)
 		}
 	}()
+	if isCheck {
+		held, queued := false, 0
+		for u, o := range r.ths {
+			if u != t && o.id == id {
+				switch o.status.Load() {
+				case c15Holding:
+					held = true
+				case c15Calling:
+					queued++
+				}
+			}
+		}
+		// actions run on their own goroutines; the emitter is not safe for concurrent use
+		r.countMu.Lock()
+		r.counts = append(r.counts, fmt.Sprintf("check:arrives,contract-held=%v,others-in-call=%d", held, queued))
+		r.countMu.Unlock()
+		return fmt.Sprintf("ACheck %d %s %s %s %s", t, c15N(id), coqBool(predone), coqBool(bad), coqBool(r.be.CheckOK(api, id)))
+	}
 	return fmt.Sprintf("ALock %d %s %s %s", t, c15N(id), coqBool(predone), coqBool(bad))
 }
+
+func (r *c15Run) isCheck(api int) bool { return r.be.IsCheck != nil && r.be.IsCheck(api) }
 
 func (r *c15Run) doCancel(t int) string {
 	th := r.ths[t]
@@ -272,8 +329,12 @@ func c15Spin(n int) {
 }
 
 // quiescent evaluates, independently of the model, whether the locker has settled: every
-// pending Lock call is parked behind a holder with a live context.  Returns a reason if not.
-func (r *c15Run) quiescent() (bool, string, string) {
+// pending call is parked behind a holder with a live context.  Returns a reason if not, and
+// whether that reason is definite: two callers that both came back from Lock with the same
+// contract (or a call that panicked) is final; anything about the table may still change — the
+// code under test is free to finish a release on a goroutine of its own — and is only reported
+// when it persists until the deadline.
+func (r *c15Run) quiescent() (ok bool, sig, detail string, definite bool) {
 	holders := make([]int, r.be.IDs)
 	waiters := make([]int, r.be.IDs)
 	for t, th := range r.ths {
@@ -283,47 +344,88 @@ func (r *c15Run) quiescent() (bool, string, string) {
 		case c15Calling:
 			waiters[th.id]++
 			if th.cancelled {
-				return false, "cancelled-lock-call-did-not-return", fmt.Sprintf("session %d id %d", t, th.id)
+				return false, "cancelled-lock-call-did-not-return", fmt.Sprintf("session %d id %d", t, th.id), false
 			}
+		case c15Panicked:
+			r.paniced = true
+			return false, "call-panicked", fmt.Sprintf("session %d api %d id %d: %v", t, th.api, th.id, th.panicMsg.Load()), true
+		}
+	}
+	for id := 0; id < r.be.IDs; id++ {
+		if holders[id] > 1 {
+			return false, "two-holders", fmt.Sprintf("id %d has %d holders", id, holders[id]), true
 		}
 	}
 	snap := r.be.Snapshot()
 	if snap == nil {
 		r.fatal = true
-		return false, "locker-mutex-stuck", "lr.mu stays held: a critical section does not complete"
+		return false, "locker-mutex-stuck", "lr.mu stays held: a critical section does not complete", true
 	}
 	for k, e := range snap {
 		if k >= r.be.IDs {
-			return false, "leaked-entry", fmt.Sprintf("entry for an unknown id: n=%d", e[0])
+			return false, "leaked-entry", fmt.Sprintf("entry for an unknown id: n=%d", e[0]), false
 		}
 	}
 	for id := 0; id < r.be.IDs; id++ {
 		e, ok := snap[id]
 		switch {
-		case holders[id] > 1:
-			return false, "two-holders", fmt.Sprintf("id %d has %d holders", id, holders[id])
 		case holders[id]+waiters[id] == 0 && ok:
-			return false, "leaked-entry", fmt.Sprintf("id %d: no caller but entry n=%d len(ch)=%d", id, e[0], e[1])
+			return false, "leaked-entry", fmt.Sprintf("id %d: no caller but entry n=%d len(ch)=%d", id, e[0], e[1]), false
 		case holders[id]+waiters[id] == 0:
 		case !ok:
-			return false, "callers-without-entry", fmt.Sprintf("id %d: %d holders %d waiters, no entry", id, holders[id], waiters[id])
+			return false, "callers-without-entry", fmt.Sprintf("id %d: %d holders %d waiters, no entry", id, holders[id], waiters[id]), false
 		case holders[id] == 0:
-			return false, "waiter-not-admitted-to-free-lock", fmt.Sprintf("id %d: no holder, %d waiting, n=%d len(ch)=%d", id, waiters[id], e[0], e[1])
+			return false, "waiter-not-admitted-to-free-lock", fmt.Sprintf("id %d: no holder, %d waiting, n=%d len(ch)=%d", id, waiters[id], e[0], e[1]), false
 		case e[1] != 0:
-			return false, "token-while-held", fmt.Sprintf("id %d: held, len(ch)=%d", id, e[1])
+			return false, "token-while-held", fmt.Sprintf("id %d: held, len(ch)=%d", id, e[1]), false
 		case e[0] != holders[id]+waiters[id]:
-			return false, "count-mismatch", fmt.Sprintf("id %d: n=%d, %d holders + %d waiters", id, e[0], holders[id], waiters[id])
+			return false, "count-mismatch", fmt.Sprintf("id %d: n=%d, %d holders + %d waiters", id, e[0], holders[id], waiters[id]), false
 		}
 	}
-	return true, "", ""
+	return true, "", "", false
+}
+
+// probeHeld is run when the lock table stays in a state that does not account for a caller
+// holding a contract (no entry, a token in the channel, a count that is too low).  That is
+// bookkeeping, not yet the property; what the property says is that nobody else gets the contract
+// while it is held.  So a late caller tries, through the API the holder used: if it comes back
+// with the lock although the holder has not released, two callers hold the contract.
+func (r *c15Run) probeHeld() {
+	for t, th := range r.ths {
+		if th.status.Load() != c15Holding {
+			continue
+		}
+		id, api := th.id, th.api
+		ctx, cancel := context.WithCancel(context.Background())
+		admitted := make(chan struct{})
+		release := make(chan struct{})
+		go func() {
+			defer func() { recover() }()
+			unlock, err := r.be.Lock(ctx, api, id)
+			if err != nil {
+				return
+			}
+			close(admitted)
+			<-release
+			unlock()
+		}()
+		select {
+		case <-admitted:
+			r.monitor("two-holders", fmt.Sprintf("session %d holds id %d and has not released it, yet a late caller (api %d) was given the same contract", t, id, api))
+		case <-time.After(100 * time.Millisecond):
+		}
+		cancel()
+		close(release)
+	}
 }
 
 // settle waits for quiescence and returns the observation as a Coq term.
 func (r *c15Run) settle() string {
 	deadline := time.Now().Add(r.timeout)
 	stable := 0
+	obs := ""
 	for spins := 0; ; spins++ {
-		ok, sig, detail := r.quiescent()
+		ok, sig, detail, definite := r.quiescent()
 		if ok {
 			stable++
 			if stable >= 2 {
@@ -331,12 +433,23 @@ func (r *c15Run) settle() string {
 			}
 		} else {
 			stable = 0
-			if r.fatal || time.Now().After(deadline) {
-				if sig == "leaked-entry" {
+			if definite || r.fatal || time.Now().After(deadline) {
+				switch sig {
+				case "leaked-entry":
 					for _, th := range r.ths {
 						if th.status.Load() == c15MgrErr {
 							sig = "error-path-kept-lock"
 						}
+					}
+				case "two-holders":
+					if r.waitIn.Swap(0) != 0 {
+						sig = "waiter-admitted-while-held"
+					}
+					r.twoHold.Store(0)
+				case "callers-without-entry", "token-while-held", "count-mismatch":
+					if !r.fatal {
+						obs = r.observe() // what the probe found, not what it left behind
+						r.probeHeld()
 					}
 				}
 				r.monitor(sig, detail)
@@ -349,9 +462,14 @@ func (r *c15Run) settle() string {
 			time.Sleep(20 * time.Microsecond)
 		}
 	}
-	if r.twoHold.Load() != 0 {
+	if r.waitIn.Swap(0) != 0 {
+		r.monitor("waiter-admitted-while-held", "a parked waiter was given the lock while another caller was inside and had not released it")
+	}
+	if r.twoHold.Swap(0) != 0 {
 		r.monitor("two-holders", "a caller acquired a lock while another caller was inside")
-		r.twoHold.Store(0)
+	}
+	if obs != "" {
+		return obs
 	}
 	return r.observe()
 }
@@ -364,6 +482,7 @@ func (r *c15Run) observe() string {
 			st = append(st, "SIdle")
 		case c15Calling:
 			st = append(st, "SWait "+c15N(th.id))
+			th.parked.Store(true)
 			if !th.everWait {
 				th.everWait = true
 				r.parked++
@@ -374,6 +493,8 @@ func (r *c15Run) observe() string {
 			st = append(st, "SCtxErr")
 		case c15MgrErr:
 			st = append(st, "SMgrErr")
+		case c15Panicked:
+			st = append(st, "SPanicked")
 		}
 	}
 	var snap map[int][2]int
@@ -408,6 +529,12 @@ func (r *c15Run) parG(gated []func() string, acts []func() string, held bool) {
 		terms = append(terms, g())
 	}
 	ts, ok := r.runActs(acts, held)
+	r.countMu.Lock()
+	for _, c := range r.counts {
+		r.em.Count(c)
+	}
+	r.counts = r.counts[:0]
+	r.countMu.Unlock()
 	if len(gated) > 0 {
 		if ok {
 			deadline := time.Now().Add(5 * time.Millisecond)
@@ -487,7 +614,7 @@ func (r *c15Run) runActs(acts []func() string, held bool) ([]string, bool) {
 }
 
 type c15Act struct {
-	kind string // lock, cancel, unlock
+	kind string // lock, check, cancel, unlock
 	t    int
 	run  func() string
 }
@@ -502,8 +629,25 @@ func (r *c15Run) candidate(t int, preferID int) *c15Act {
 		if preferID >= 0 && r.rng.Intn(3) != 0 {
 			id = preferID
 		}
+		if r.be.APIs > 1 && r.rng.Intn(2) == 0 {
+			// more often than not call something that can succeed on this contract, so that
+			// callers (integrity checks among them) queue up behind a holder
+			var good []int
+			for a := 0; a < r.be.APIs; a++ {
+				if !r.be.Bad(a, id) {
+					good = append(good, a)
+				}
+			}
+			if len(good) > 0 {
+				api = good[r.rng.Intn(len(good))]
+			}
+		}
 		predone := r.be.Cancellable(api) && r.rng.Intn(8) == 0
-		return &c15Act{"lock", t, func() string { return r.startLock(t, api, id, predone) }}
+		kind := "lock"
+		if r.isCheck(api) {
+			kind = "check"
+		}
+		return &c15Act{kind, t, func() string { return r.startLock(t, api, id, predone) }}
 	case c15Calling:
 		if r.be.Cancellable(th.api) && !th.cancelled {
 			return &c15Act{"cancel", t, func() string { return r.doCancel(t) }}
@@ -572,6 +716,8 @@ func (r *c15Run) race(c, u int, held bool, newcomer int) {
 		r.em.Count(fmt.Sprintf("race-outcome:cancelled-waiter-returned-error,waiters=%d", nwait))
 	case c15MgrErr:
 		r.em.Count(fmt.Sprintf("race-outcome:cancelled-waiter-got-the-token-and-released-it-on-its-error-path,waiters=%d", nwait))
+	case c15Idle:
+		r.em.Count(fmt.Sprintf("race-outcome:cancelled-check-got-the-token-ran-and-released,waiters=%d", nwait))
 	default:
 		r.em.Count("race-outcome:other")
 	}
@@ -657,10 +803,19 @@ func (r *c15Run) finish() {
 		api := r.rng.Intn(r.be.APIs)
 		start := time.Now()
 		r.par([]func() string{func() string { return r.startLock(0, api, id, false) }}, false)
+		if r.failed {
+			return
+		}
 		th := r.ths[0]
 		want := int32(c15Holding)
 		if r.be.Bad(api, id) {
 			want = c15MgrErr
+		} else if r.isCheck(api) {
+			// an integrity check of a free contract runs and returns at once, holding nothing
+			want = c15Idle
+			if !r.be.CheckOK(api, id) {
+				want = c15MgrErr
+			}
 		}
 		if got := th.status.Load(); got != want {
 			r.monitor("relock-after-full-release-not-immediate", fmt.Sprintf("id %d api %d: status %d after %v", id, api, got, time.Since(start)))
@@ -692,7 +847,48 @@ func (r *c15Run) unlockStep(t int) {
 }
 
 // directed cases: known dangerous schedules and boundary cases (case ids 0..c15Directed-1)
-const c15Directed = 14
+const c15Directed = 26
+
+// APIs and contract ids of the Manager backend (the locker backend has one API and maps every
+// id into its range, so the same schedules run there with plain Lock calls)
+const (
+	c15APILock    = 0 // Manager.Lock
+	c15APILockV2  = 1 // Manager.LockV2Contract
+	c15APICheck   = 2 // Manager.CheckIntegrity
+	c15APICheckV2 = 3 // Manager.V2CheckIntegrity
+
+	c15IDGood    = 0 // v1 contract with stored sectors, good for modification
+	c15IDTooLate = 1 // v1 contract too close to its proof window
+	c15IDV2      = 2 // v2 contract with stored sectors
+	c15IDMissing = 3
+	c15IDBadV1   = 4 // v1 contract whose revision claims a sector that has no root
+	c15IDBadV2   = 5 // v2 contract of the same kind
+	c15IDRootV1  = 6 // v1 contract whose one root does not hash to the revision's Merkle root
+	c15IDRootV2  = 7 // v2 contract of the same kind
+)
+
+func (r *c15Run) mapAPI(api int) int {
+	if api >= r.be.APIs {
+		return 0
+	}
+	return api
+}
+
+// queueBehindHolder: session 0 takes the contract, sessions 1.. queue up behind it in the given
+// order (one API each), the holder releases, and then — whoever was admitted, and whatever it
+// did before it returned — a late caller arrives: it must wait.
+func (r *c15Run) queueBehindHolder(lockAPI, id int, queued []int, late bool) {
+	id = id % r.be.IDs
+	lockAPI = r.mapAPI(lockAPI)
+	r.lockStep(0, lockAPI, id, false)
+	for j, api := range queued {
+		r.lockStep(1+j, r.mapAPI(api), id, false)
+	}
+	r.unlockStep(0)
+	if late && !r.failed {
+		r.lockStep(len(queued)+1, lockAPI, id, false)
+	}
+}
 
 func (r *c15Run) directed(id int) {
 	switch id {
@@ -747,7 +943,7 @@ func (r *c15Run) directed(id int) {
 			func() string { return r.doCancel(2) },
 			func() string { return r.doUnlock(0) }}, true)
 	case 10:
-		if r.be.APIs == 2 {
+		if r.be.APIs >= 2 {
 			// Manager: a waiter whose contract check fails sits between the holder and another
 			// waiter; when it is handed the lock it must release it on its error path
 			r.lockStep(0, 1, 2, false) // LockV2Contract on the v2 contract
@@ -763,7 +959,7 @@ func (r *c15Run) directed(id int) {
 			r.unlockStep(0)
 		}
 	case 11:
-		if r.be.APIs == 2 {
+		if r.be.APIs >= 2 {
 			// Manager: error paths on a free lock (missing contract, not good for modification,
 			// missing v2 contract), each followed by an immediate relock
 			for rep := 0; rep < 2; rep++ {
@@ -790,6 +986,84 @@ func (r *c15Run) directed(id int) {
 			r.race(1, 0, id == 12, 2)
 		} else {
 			r.race(1, 0, id == 12, -1)
+		}
+
+	// 14..: the other users of the lock inside the manager (integrity.go) under contention: a
+	// holder, a queued integrity check, a queued waiter behind it, then a late caller
+	case 14: // CheckIntegrity of a contract with sectors, between the holder and a waiter
+		r.queueBehindHolder(c15APILock, c15IDGood, []int{c15APICheck, c15APILock}, true)
+	case 15: // V2CheckIntegrity, likewise
+		r.queueBehindHolder(c15APILockV2, c15IDV2, []int{c15APICheckV2, c15APILockV2}, true)
+	case 16: // the check returns an error from its body (root count mismatch): deferred release
+		if r.rng.Intn(2) == 0 {
+			r.queueBehindHolder(c15APILock, c15IDBadV1, []int{c15APICheck, c15APILock}, true)
+		} else {
+			r.queueBehindHolder(c15APILockV2, c15IDBadV2, []int{c15APICheckV2, c15APILockV2}, true)
+		}
+	case 17:
+		if r.rng.Intn(2) == 0 { // the other error return of the body: Merkle root mismatch
+			r.queueBehindHolder(c15APILock, c15IDRootV1, []int{c15APICheck, c15APILock}, true)
+		} else {
+			r.queueBehindHolder(c15APILockV2, c15IDRootV2, []int{c15APICheckV2, c15APILockV2}, true)
+		}
+	case 18: // two waiters behind the check: its release must admit one of them, not both
+		r.queueBehindHolder(c15APILock, c15IDGood, []int{c15APICheck, c15APILock, c15APILock}, true)
+	case 19: // the check in the middle of the queue
+		r.queueBehindHolder(c15APILockV2, c15IDV2, []int{c15APILockV2, c15APICheckV2, c15APILockV2}, true)
+	case 20: // a check whose Manager-level lock call fails (v1 check of a v2 contract): error path of Manager.Lock
+		r.queueBehindHolder(c15APILockV2, c15IDV2, []int{c15APICheck, c15APILockV2}, true)
+	case 21: // two checks and a waiter
+		r.queueBehindHolder(c15APILock, c15IDGood, []int{c15APICheck, c15APICheck, c15APILock}, true)
+	case 22: // a check and two lockers arrive at a free contract together, then a late caller
+		id0 := c15IDGood % r.be.IDs
+		r.par([]func() string{
+			func() string { return r.startLock(0, r.mapAPI(c15APICheck), id0, false) },
+			func() string { return r.startLock(1, r.mapAPI(c15APILock), id0, false) },
+			func() string { return r.startLock(2, r.mapAPI(c15APILock), id0, false) }}, true)
+		r.lockStep(3, r.mapAPI(c15APILock), id0, false)
+	case 23: // the queued check is cancelled while the holder releases, a waiter behind it
+		id0 := c15IDGood % r.be.IDs
+		r.lockStep(0, r.mapAPI(c15APILock), id0, false)
+		r.lockStep(1, r.mapAPI(c15APICheck), id0, false)
+		r.lockStep(2, r.mapAPI(c15APILock), id0, false)
+		r.race(1, 0, true, -1)
+		if !r.failed {
+			r.lockStep(3, r.mapAPI(c15APILock), id0, false)
+		}
+	case 24: // hand-off chain through checks: every release is followed by a late caller
+		id0 := c15IDBadV1 % r.be.IDs
+		r.lockStep(0, r.mapAPI(c15APILock), id0, false)
+		r.lockStep(1, r.mapAPI(c15APICheck), id0, false)
+		r.lockStep(2, r.mapAPI(c15APILock), id0, false)
+		r.lockStep(3, r.mapAPI(c15APICheck), id0, false)
+		r.unlockStep(0)
+		r.lockStep(0, r.mapAPI(c15APILock), id0, false)
+		for round := 0; round < 4 && !r.failed; round++ {
+			if h := r.pickWith(c15Holding, id0, nil); h >= 0 {
+				r.unlockStep(h)
+				if !r.failed && r.isIdle(h) {
+					r.lockStep(h, r.mapAPI(c15APICheck), id0, false)
+				}
+			}
+		}
+	case 25: // uncontended round trips: a check of a free contract returns with the contract free
+		for _, c := range [][2]int{{c15APICheck, c15IDGood}, {c15APICheckV2, c15IDV2}, {c15APICheck, c15IDBadV1},
+			{c15APICheckV2, c15IDBadV2}, {c15APICheck, c15IDRootV1}, {c15APICheckV2, c15IDRootV2},
+			{c15APICheck, c15IDTooLate}, {c15APICheckV2, c15IDMissing}} {
+			if r.failed {
+				break
+			}
+			api, cid := r.mapAPI(c[0]), c[1]%r.be.IDs
+			r.lockStep(0, api, cid, false)
+			lockAPI := r.mapAPI(c15APILock)
+			if r.be.APIs > 1 && r.be.Bad(lockAPI, cid) {
+				lockAPI = r.mapAPI(c15APILockV2)
+			}
+			if r.ths[0].status.Load() == c15Holding { // locker backend: a plain Lock
+				r.unlockStep(0)
+			}
+			r.lockStep(1, lockAPI, cid, false)
+			r.unlockStep(1)
 		}
 	}
 }
@@ -863,6 +1137,9 @@ func VerifC15Drive(t *testing.T, em VerifC15Emitter, be *VerifC15Backend, n int,
 		}
 		rng := rnd(id)
 		k := 3
+		if id >= 14 {
+			k = 5
+		}
 		if id >= c15Directed {
 			k = 2 + rng.Intn(be.MaxThreads-1)
 		}
@@ -888,6 +1165,11 @@ func VerifC15Drive(t *testing.T, em VerifC15Emitter, be *VerifC15Backend, n int,
 		if r.fatal {
 			r.be.Reset()
 			t.Logf("locker wedged in case %d, stopping", id)
+			return true
+		}
+		if r.paniced {
+			r.abort()
+			t.Logf("a call panicked in case %d, stopping", id)
 			return true
 		}
 		if r.failed {
